@@ -34,6 +34,11 @@ def run_scenario(item):
         names = sorted({s['c'] for s in item['steps'] if s['c']})
         for n in names:
             clients[n] = Client(w.port, db='db1', name=n, timeout=6.0)
+        if item.get('warm') == 'lone_sync':
+            # what a client did before does not matter to the gate - e.g. a batch the pooler answered itself
+            for n in names:
+                clients[n].send(W.Sync())
+                clients[n].read_reply(3.0)
         ctl = Client(w.port, db='db2', name='CTL', timeout=6.0)   # control client on the other pool
         admin = w.admin()
         pending = {}
@@ -113,6 +118,7 @@ def build_trace(hooks, sc):
             pid[x] = len(pid) + 1
         return pid[x]
     recs = [{'ev': 'reset', 'sc': sc}]
+    last_at = {}
     for h in hooks:
         ev = h['ev']
         if ev == 'startup_ok' and not h.get('admin'):
@@ -127,6 +133,13 @@ def build_trace(hooks, sc):
             recs.append({'ev': 'woken', 'c': P(h['pid'])})
         elif ev == 'checkout_ok' and h['pid'] in pool_of:
             recs.append({'ev': 'checkout', 'c': P(h['pid'])})
+        elif ev == 'msg' and h['pid'] in pool_of:
+            # the first message of a transaction is recorded twice (read while idle, then taken up by the transaction loop);
+            # every transaction of these histories is one autocommit statement, so a Query that the loop reads itself is a new
+            # transaction that did not come through the gate
+            if h.get('at') == 'tx' and h.get('code') == 'Q' and last_at.get(h['pid']) == 'tx':
+                recs.append({'ev': 'inloop', 'c': P(h['pid'])})
+            last_at[h['pid']] = h.get('at')
         elif ev == 'client_drop' and h['pid'] in pool_of and not h.get('cancel'):
             recs.append({'ev': 'gone', 'c': P(h['pid'])})
         elif ev in ('pause', 'resume_store', 'resume_notify'):
@@ -181,7 +194,8 @@ def check_c16(prop, tier, seed):
     for i in range(n):
         s = useful[i % len(useful)]
         items.append({'id': i + 1, 'steps': s, 'delays': DELAY_CONFIGS[i % len(DELAY_CONFIGS)],
-                      'scope': 'pool' if i % 3 == 0 else 'global', 'seed': seed * 31 + i})
+                      'scope': 'pool' if i % 3 == 0 else 'global', 'seed': seed * 31 + i,
+                      'warm': 'lone_sync' if i % 4 == 1 else None})
     results = core.run_parallel(run_scenario, items, workers=14)
     recs = []
     nc = 1
